@@ -1392,14 +1392,15 @@ Proof.
   intros F NS NA.
   assert (NOT : ~ otp_add_may_hit C x a O -> (otp_hits C x U (w_st (fst (step C cfg w a O))) <= otp_hits C x U (w_st w))%nat)
     by (apply step_hits_le; assumption).
-  destruct a as [req|p|p|p pw|p|su rm|b k v|ck b j]; try (apply NOT; intros []).
+  destruct a as [req|p|p|p pw|p|su rm|b k v|ck b j]; try solve [apply NOT; intros []].
   destruct (bytes_dec U (aget k_uid (jar_get (q_browser req) (w_sess w)))) as [EU|NU].
   - apply NOT. intros (R & M & Hc). apply NA. cbn [otp_add_hits]. auto.
   - destruct (q_route req) eqn:R; try (apply NOT; intros (R' & _); rewrite R in R'; discriminate R').
     destruct (q_meth req) eqn:M; try (apply NOT; intros (_ & M' & _); rewrite M in M'; discriminate M').
     destruct (step_req_jars C cfg w req O) as (r & h & Sv & St & _).
     unfold otp_hits. rewrite St.
-    rewrite (serve_otp_add_frame _ (init_hst (w_st w) O) r h U (conj R M) F eq_refl eq_refl Sv NU). cbn [init_hst h_st]. lia.
+    rewrite (serve_otp_add_frame (mkEnv C cfg O req (jar_get (q_browser req) (w_cook w)) (jar_get (q_browser req) (w_sess w)))
+               (init_hst (w_st w) O) r h U (conj R M) F eq_refl eq_refl Sv NU). cbn [init_hst h_st]. lia.
 Qed.
 
 Lemma step_absent_preserved_sharp C cfg w a O U x :
@@ -1472,4 +1473,293 @@ Proof.
   assert (U2 : sess_untouched (fst (run C cfg w1' l2)) (fst (step C cfg (fst (run C cfg w1' l2)) (AReq req2) O2))).
   { apply (absent_otp_refused C cfg _ req2 O2 U x); auto. apply run_keeps_filed. exact F1'. }
   split; [exact U2|]. split; [apply untouched_refused; exact U2|exact A2].
+Qed.
+
+(* ---- the statements of Props/C12d.v that unfold the vocabulary ---------------------------------- *)
+Lemma absent_otp_refused_lemma : forall C cfg w req O U x,
+  filed (w_st w) -> otp_login_req cfg req U x -> otp_absent C x U (w_st w) ->
+  let w' := fst (step C cfg w (AReq req) O) in
+  (forall b k, k <> k_flash_ok -> k <> k_flash_err ->
+     alookup k (jar_get b (w_sess w')) = alookup k (jar_get b (w_sess w))) /\
+  (forall b k, (k = k_uid \/ k = k_totp_pending \/ k = k_sms_pending) ->
+     alookup k (jar_get b (w_sess w')) = Some U -> alookup k (jar_get b (w_sess w)) = Some U).
+Proof.
+  intros C cfg w req O U x F L Ab w'.
+  pose proof (absent_otp_refused C cfg w req O U x F L Ab) as H. split; [exact H|exact (untouched_refused U _ _ H)].
+Qed.
+
+Lemma consumption_establishes_absent_lemma : forall C cfg w req O U x,
+  filed (w_st w) -> otp_login_req cfg req U x -> otp_unique C x U (w_st w) ->
+  accepted_for U w (fst (step C cfg w (AReq req) O)) ->
+  otp_absent C x U (w_st (fst (step C cfg w (AReq req) O))).
+Proof.
+  intros C cfg w req O U x F L Un Acc.
+  exact (consumption_establishes_absent C cfg w req O U x F L Un (accepted_touched U _ _ Acc)).
+Qed.
+
+Lemma exceptions_reading : forall C x U w a O,
+  (seeds U a <-> match a with ASeed u _ => u_pid u = U | _ => False end) /\
+  (otp_add_may_hit C x a O <->
+   match a with
+   | AReq req => q_route req = ROtpAdd /\ q_meth req = POST /\
+                 exists c, In c (fresh_cands 16 (o_fresh O)) /\ sha C (otp_format c) = sha C x
+   | _ => False
+   end) /\
+  (otp_add_hits C x U w a O <->
+   match a with
+   | AReq req => q_route req = ROtpAdd /\ q_meth req = POST /\
+                 aget k_uid (jar_get (q_browser req) (w_sess w)) = U /\
+                 exists c, In c (fresh_cands 16 (o_fresh O)) /\ sha C (otp_format c) = sha C x
+   | _ => False
+   end).
+Proof. intros. repeat split; intros H; exact H. Qed.
+
+(* ================================================================================================ *)
+(* I. the same chain for the 2FA recovery codes                                                      *)
+(* ================================================================================================ *)
+(* the record stored under U (if any) verifies c against none of its stored recovery-code hashes *)
+Definition rc_absent (C : crypto) (c U : bytes) (st : storage) : Prop :=
+  forall u, ulookup U (s_users st) = Some u ->
+    forall e, In e (decode_codes (u_recovery u)) -> pwcheck C e c = false.
+
+Lemma rc_absent_use E c U st u :
+  rc_absent (e_C E) c U st -> ulookup U (s_users st) = Some u ->
+  use_recovery_code E (decode_codes (u_recovery u)) c = None.
+Proof. intros Ab Hu. apply use_rc_none_iff. exact (Ab u Hu). Qed.
+
+(* the visible exception: a request on one of the three routes that generate recovery codes
+   (regeneration, TOTP set-up confirmation, SMS set-up confirmation) for which one of the ten codes
+   cut out of a candidate of [fresh 100] verifies, once hashed, the code c *)
+Definition regen_may_hit (C : crypto) (c : bytes) (a : action) (O : oracle) : Prop :=
+  match a with
+  | AReq req => regen_route req /\
+                exists c0 code, In c0 (fresh_cands 100 (o_fresh O)) /\ In code (rc_codes 10 c0) /\
+                                pwcheck C (pwhash C code) c = true
+  | _ => False
+  end.
+
+Lemma regen_may_hit_laws C c a O :
+  crypto_laws C -> pw_dom c -> regen_may_hit C c a O ->
+  exists req c0, a = AReq req /\ regen_route req /\ In c0 (fresh_cands 100 (o_fresh O)) /\
+                 (In c (rc_codes 10 c0) \/ exists code, In code (rc_codes 10 c0) /\ ~ pw_dom code).
+Proof.
+  intros L Dc H. destruct a; try contradiction. destruct H as (Rt & c0 & code & H0 & H1 & H2).
+  exists r, c0. split; [reflexivity|]. split; [exact Rt|]. split; [exact H0|].
+  destruct (le_dec (length code) 72) as [Dk|Dk].
+  - left. apply (pw_ok C L code c Dk Dc) in H2. subst code. exact H1.
+  - right. exists code. split; [exact H1|exact Dk].
+Qed.
+
+Lemma step_rc_absent_preserved C cfg w a O U c :
+  nocomma C -> pwcheck C [] c = false ->
+  filed (w_st w) -> rc_absent C c U (w_st w) -> ~ seeds U a -> ~ regen_may_hit C c a O ->
+  rc_absent C c U (w_st (fst (step C cfg w a O))).
+Proof.
+  intros NC Em F Ab NS NA.
+  assert (N : forall e, step_NR C a O e -> pwcheck C e c = false).
+  { intros e He. destruct (pwcheck C e c) eqn:Pc; [|reflexivity]. exfalso. apply NA.
+    destruct a; cbn [step_NR] in He; try contradiction. destruct He as (Rt & c0 & H0 & H1).
+    apply in_map_iff in H1 as (code & <- & H1). cbn [regen_may_hit]. split; [exact Rt|]. exists c0, code. auto. }
+  destruct a as [r|p|p|p pw|p|su rm|b k v|ck b j].
+  6:{ intros u Hu. rewrite step_seed in Hu. cbn [s_users] in Hu. rewrite ulookup_uput_neq in Hu; [exact (Ab u Hu)|].
+      intros HU. apply NS. symmetry. exact HU. }
+  all: match goal with |- context [step _ _ _ ?a _] =>
+         destruct (step_lists C cfg w a O (fun H => H) F) as [_ S]; specialize (S U);
+         intros u1 Hu1 e He; rewrite Hu1 in S;
+         destruct (ulookup U (s_users (w_st w))) as [u0|] eqn:L0;
+         destruct S as [_ S]; destruct (S NC e He) as [->|[Ho|Hn]];
+         [exact Em|exact (Ab u0 L0 e Ho)|exact (N e Hn)|exact Em|destruct Ho as [<-|[]]; exact Em|exact (N e Hn)] end.
+Qed.
+
+(* a request on one of the two validation pages that submits the recovery code c *)
+Definition rc_validate_req (cfg : config) (req : request) (c : bytes) : Prop :=
+  (q_route req = RTotpValidate \/ q_route req = RSmsValidate) /\ q_meth req = POST /\
+  aget f_recovery_code (values_of cfg req) = c /\ bempty c = false.
+
+(* some jar newly names U as its identity / no jar does *)
+Definition logged_in_as (U : bytes) (w w' : world) : Prop :=
+  exists b, alookup k_uid (jar_get b (w_sess w')) = Some U /\ alookup k_uid (jar_get b (w_sess w)) <> Some U.
+Definition not_logged_in_as (U : bytes) (w w' : world) : Prop :=
+  forall b, alookup k_uid (jar_get b (w_sess w')) = Some U -> alookup k_uid (jar_get b (w_sess w)) = Some U.
+
+Lemma serve_of_route E h r h' :
+  serve E h = (r, h') ->
+  (exists hd r0 h0, route_table E = Handler hd /\ hd h = (r0, h0) /\ h_sev h' = h_sev h0 /\ h_st h' = h_st h0) \/
+  ((forall hd, route_table E <> Handler hd) /\ h_sev h' = h_sev h /\ h_st h' = h_st h).
+Proof.
+  unfold serve. destruct (route_table E) as [hd| |] eqn:RT; intros Eq.
+  - left. apply error_handler_tail in Eq as (r0 & h0 & A & B & C0). exists hd, r0, h0. auto.
+  - right. split; [intros hd; discriminate|]. unfold write_resp, modify in Eq. inversion Eq; subst. destruct (h_out h); auto.
+  - right. split; [intros hd; discriminate|]. unfold write_resp, modify in Eq. inversion Eq; subst. destruct (h_out h); auto.
+Qed.
+
+Lemma rc_validate_route E hd :
+  (q_route (e_req E) = RTotpValidate \/ q_route (e_req E) = RSmsValidate) -> q_meth (e_req E) = POST ->
+  route_table E = Handler hd -> exists k, hd = validate2fa k E.
+Proof.
+  intros [R|R] M; unfold route_table; rewrite R, M; cbn beta iota; unfold when, get_post; rewrite M.
+  - destruct (c_totp (e_cfg E)); intros H; inversion H. exists KTotp. reflexivity.
+  - destruct (c_sms (e_cfg E)); intros H; inversion H. exists KSms. reflexivity.
+Qed.
+
+(* the handler-level content of a validation request at step level *)
+Lemma step_rc_validate C cfg w req O c :
+  rc_validate_req cfg req c ->
+  let E := mkEnv C cfg O req (jar_get (q_browser req) (w_cook w)) (jar_get (q_browser req) (w_sess w)) in
+  (forall U, not_logged_in_as U w (fst (step C cfg w (AReq req) O))) \/
+  exists k r0 h0 ls,
+    validate2fa k E (init_hst (w_st w) O) = (r0, h0) /\ h_sev h0 = ls /\
+    w_st (fst (step C cfg w (AReq req) O)) = h_st h0 /\
+    forall U, logged_in_as U w (fst (step C cfg w (AReq req) O)) -> In (Put k_uid U) ls.
+Proof.
+  intros (R & M & Hc & Be) E.
+  destruct (step_req_jars C cfg w req O) as (r & h & Sv & St & Jr). fold E in Sv.
+  assert (PUT : forall U, logged_in_as U w (fst (step C cfg w (AReq req) O)) -> In (Put k_uid U) (h_sev h)).
+  { intros U (b & H1 & H0). destruct (Jr b) as [Eb|(pre & post & Hs & Eb)]; rewrite Eb in H1; [contradiction|].
+    rewrite Hs. apply in_or_app. left. exact (apply_events_uid_change _ _ _ H1 H0). }
+  apply serve_of_route in Sv as [(hd & r0 & h0 & RT & Eq & S1 & S2)|(_ & S1 & _)].
+  - apply (rc_validate_route E hd R M) in RT as (k & ->). right. exists k, r0, h0, (h_sev h0).
+    split; [exact Eq|]. split; [reflexivity|]. split; [congruence|]. intros U HU. rewrite <- S1. exact (PUT U HU).
+  - left. intros U b H1. destruct (names_dec b U w) as [Y|N]; [exact Y|]. exfalso.
+    assert (HI : In (Put k_uid U) (h_sev h)) by (apply PUT; exists b; auto). rewrite S1 in HI. destruct HI.
+Qed.
+
+(* refusal: U's record verifies c against nothing: no jar newly names U *)
+Lemma rc_absent_refused C cfg w req O U c :
+  filed (w_st w) -> rc_validate_req cfg req c -> rc_absent C c U (w_st w) ->
+  not_logged_in_as U w (fst (step C cfg w (AReq req) O)).
+Proof.
+  intros F L Ab. pose proof L as (_ & _ & Hc & Be).
+  destruct (step_rc_validate C cfg w req O c L) as [H|(k & r0 & h0 & ls & Eq & Hs & _ & PUT)]; [exact (H U)|].
+  intros b H1. destruct (names_dec b U w) as [Y|N]; [exact Y|]. exfalso.
+  assert (HI : In (Put k_uid U) ls) by (apply PUT; exists b; auto).
+  set (E := mkEnv C cfg O req (jar_get (q_browser req) (w_cook w)) (jar_get (q_browser req) (w_sess w))) in *.
+  revert HI. apply (validate2fa_rc_refused E k (init_hst (w_st w) O) r0 h0 U ls (filed_keyed (w_st w) F) eq_refl).
+  - change (aget f_recovery_code (values E)) with (aget f_recovery_code (values_of cfg req)). rewrite Hc. exact Be.
+  - intros u Hu. change (aget f_recovery_code (values E)) with (aget f_recovery_code (values_of cfg req)). rewrite Hc.
+    apply (rc_absent_use E c U (w_st w) u); [exact Ab|exact Hu].
+  - exact Eq.
+  - cbn [init_hst h_sev app]. exact Hs.
+Qed.
+
+(* consumption: the step that logged U in against the recovery code c leaves U's record without a
+   hash that verifies c (the hypotheses of c12_recovery_code_once on the list stored before) *)
+Lemma rc_consumption_establishes_absent C cfg w req O U c plain :
+  crypto_laws C -> filed (w_st w) -> rc_validate_req cfg req c ->
+  (forall u, ulookup U (s_users (w_st w)) = Some u -> decode_codes (u_recovery u) = map (pwhash C) plain) ->
+  NoDup plain -> Forall pw_dom plain -> pw_dom c -> pwcheck C [] c = false ->
+  logged_in_as U w (fst (step C cfg w (AReq req) O)) ->
+  rc_absent C c U (w_st (fst (step C cfg w (AReq req) O))).
+Proof.
+  intros laws F L Plain ND FD Dc Em Acc. pose proof L as (_ & _ & Hc & Be).
+  destruct (step_rc_validate C cfg w req O c L) as [H|(k & r0 & h0 & ls & Eq & Hs & St & PUT)].
+  { exfalso. destruct Acc as (b & H1 & H0). exact (H0 (H U b H1)). }
+  pose proof (PUT U Acc) as Hin.
+  set (E := mkEnv C cfg O req (jar_get (q_browser req) (w_cook w)) (jar_get (q_browser req) (w_sess w))) in *.
+  assert (Brc : bempty (aget f_recovery_code (values E)) = false).
+  { change (aget f_recovery_code (values E)) with (aget f_recovery_code (values_of cfg req)). rewrite Hc. exact Be. }
+  destruct (validate2fa_rc_cases E k _ _ _ Eq Brc) as [(ls0 & A1 & Fn)|(u0 & rest & Src & Uc & (ls0 & A1 & Fg) & (su & B1 & B2) & Fr)].
+  { cbn [init_hst h_sev app] in A1. rewrite Hs in A1. subst ls0. rewrite Forall_forall in Fn. exfalso. apply (Fn _ Hin). reflexivity. }
+  cbn [init_hst h_sev app] in A1. rewrite Hs in A1. subst ls0. rewrite Forall_forall in Fg.
+  assert (PU : u_pid u0 = U).
+  { destruct (Fg _ Hin) as [N|(U' & EqU & G)]; [exfalso; apply N; reflexivity|]. inversion EqU. congruence. }
+  pose proof (user_source_stored E _ (init_hst (w_st w) O) u0 (filed_keyed (w_st w) F) eq_refl Src) as Lu.
+  rewrite PU in *. cbn [init_hst h_st] in Lu. destruct B2 as [s ->].
+  intros u1 Hu1. rewrite St, B1 in Hu1. inversion Hu1; subst u1.
+  change (u_recovery (set_ltriple (consumed u0 rest) s)) with (encode_codes rest).
+  apply (use_rc_none_iff E).
+  change (aget f_recovery_code (values E)) with (aget f_recovery_code (values_of cfg req)) in Uc. rewrite Hc in Uc.
+  rewrite (Plain u0 Lu) in Uc.
+  exact (consumed_code_rejected E plain c rest laws ND FD Dc Em Uc).
+Qed.
+
+Definition rc_quiet (C : crypto) (U c : bytes) (l : list (action * oracle)) : Prop :=
+  Forall (fun ao => ~ seeds U (fst ao) /\ ~ regen_may_hit C c (fst ao) (snd ao)) l.
+
+Lemma run_rc_absent_preserved C cfg U c : forall l w,
+  nocomma C -> pwcheck C [] c = false ->
+  filed (w_st w) -> rc_absent C c U (w_st w) -> rc_quiet C U c l -> rc_absent C c U (w_st (fst (run C cfg w l))).
+Proof.
+  induction l as [|[a O] l IH]; intros w NC Em F Ab Q; [exact Ab|]. rewrite run_cons_fst.
+  inversion Q as [|? ? [N1 N2] Q']; subst. cbn [fst snd] in N1, N2.
+  apply IH; auto; [apply step_keeps_filed; exact F|apply step_rc_absent_preserved; auto].
+Qed.
+
+Lemma recovery_code_never_again_lemma C cfg w0 l1 req1 O1 l2 req2 O2 U c plain :
+  crypto_laws C -> filed (w_st w0) ->
+  rc_validate_req cfg req1 c -> rc_validate_req cfg req2 c ->
+  (forall u, ulookup U (s_users (w_st (fst (run C cfg w0 l1)))) = Some u -> decode_codes (u_recovery u) = map (pwhash C) plain) ->
+  NoDup plain -> Forall pw_dom plain -> pw_dom c -> pwcheck C [] c = false ->
+  logged_in_as U (fst (run C cfg w0 l1)) (fst (step C cfg (fst (run C cfg w0 l1)) (AReq req1) O1)) ->
+  rc_quiet C U c l2 ->
+  not_logged_in_as U (fst (run C cfg w0 (l1 ++ (AReq req1, O1) :: l2)))
+                     (fst (run C cfg w0 (l1 ++ (AReq req1, O1) :: l2 ++ [(AReq req2, O2)]))) /\
+  rc_absent C c U (w_st (fst (run C cfg w0 (l1 ++ (AReq req1, O1) :: l2)))).
+Proof.
+  intros laws F0 L1 L2 Plain ND FD Dc Em Acc Q.
+  set (w1 := fst (run C cfg w0 l1)) in *.
+  assert (F1 : filed (w_st w1)) by (apply run_keeps_filed; exact F0).
+  set (w1' := fst (step C cfg w1 (AReq req1) O1)) in *.
+  assert (F1' : filed (w_st w1')) by (apply step_keeps_filed; exact F1).
+  assert (A1 : rc_absent C c U (w_st w1')) by (apply (rc_consumption_establishes_absent C cfg w1 req1 O1 U c plain); auto).
+  assert (E2 : fst (run C cfg w0 (l1 ++ (AReq req1, O1) :: l2)) = fst (run C cfg w1' l2)).
+  { rewrite run_app_fst, run_cons_fst. reflexivity. }
+  assert (E3 : fst (run C cfg w0 (l1 ++ (AReq req1, O1) :: l2 ++ [(AReq req2, O2)])) =
+               fst (step C cfg (fst (run C cfg w1' l2)) (AReq req2) O2)).
+  { rewrite run_app_fst, run_cons_fst, run_snoc_fst. reflexivity. }
+  rewrite E2, E3.
+  assert (A2 : rc_absent C c U (w_st (fst (run C cfg w1' l2)))).
+  { apply run_rc_absent_preserved; auto. apply nocomma_of_laws. exact laws. }
+  split; [|exact A2].
+  apply (rc_absent_refused C cfg _ req2 O2 U c); auto. apply run_keeps_filed. exact F1'.
+Qed.
+
+(* non-vacuity for the recovery codes (executable crypto instance, computed): an account with TOTP and
+   two recovery codes; browser b1 logs in with the password (parked for the second factor) and presents
+   a recovery code (logged in); browser b2 logs in with the password (parked) and presents the same code *)
+Definition rx_cfg : config :=
+  mkConfig [MAuth; MLogout] false true false false true false 3 300 3600 600 3600 (bs "/auth")
+           false false false DELETE GET false [] RespNotFound [] [] true false false.
+Definition rx_c := bs "abcde-fghij".
+Definition rx_plain := [rx_c; bs "klmno-pqrst"].
+Definition rx_user : user :=
+  blank_user <| u_pid := ox_pid |> <| u_email := ox_pid |> <| u_password := exec_pwhash (bs "password1") |>
+             <| u_confirmed := true |> <| u_totp := bs "JBSWY3DPEHPK3PXP" |>
+             <| u_recovery := encode_codes (map exec_pwhash rx_plain) |>.
+Definition rx_login (b : bytes) : request :=
+  mkRequest b POST RLogin (bs "/login") [] [] [(f_email, ox_pid); (f_password, bs "password1")] false.
+Definition rx_validate (b : bytes) : request :=
+  mkRequest b POST RTotpValidate (bs "/2fa/totp/validate") [] [] [(f_recovery_code, rx_c)] false.
+Definition rx_l1 : list (action * oracle) := [(ASeed rx_user [], ox_oracle); (AReq (rx_login (bs "b1")), ox_oracle)].
+Definition rx_l2 : list (action * oracle) := [(AReq ox_page, ox_oracle); (AReq (rx_login (bs "b2")), ox_oracle)].
+
+Lemma rx_witness :
+  exists C cfg w0 l1 req1 O1 l2 req2 (O2 : oracle) U c plain,
+    crypto_laws C /\ l2 <> [] /\ filed (w_st w0) /\
+    rc_validate_req cfg req1 c /\ rc_validate_req cfg req2 c /\
+    (forall u, ulookup U (s_users (w_st (fst (run C cfg w0 l1)))) = Some u ->
+       decode_codes (u_recovery u) = map (pwhash C) plain) /\
+    NoDup plain /\ Forall pw_dom plain /\ pw_dom c /\ pwcheck C [] c = false /\
+    logged_in_as U (fst (run C cfg w0 l1)) (fst (step C cfg (fst (run C cfg w0 l1)) (AReq req1) O1)) /\
+    rc_quiet C U c l2 /\
+    (* browser b2 is parked for U's second factor when it presents the code *)
+    alookup k_totp_pending (jar_get (q_browser req2) (w_sess (fst (run C cfg w0 (l1 ++ (AReq req1, O1) :: l2))))) = Some U.
+Proof.
+  exists XC, rx_cfg, empty_world, rx_l1, (rx_validate (bs "b1")), ox_oracle, rx_l2, (rx_validate (bs "b2")), ox_oracle,
+         ox_pid, rx_c, rx_plain.
+  split; [exact exec_laws|]. split; [discriminate|].
+  split; [split; [constructor|intros k u []]|].
+  split; [split; [left; reflexivity|repeat split]|]. split; [split; [left; reflexivity|repeat split]|].
+  split.
+  { intros u Hu. vm_compute in Hu. inversion Hu; subst u. vm_compute. reflexivity. }
+  split.
+  { apply NoDup_cons; [intros [H|[]]; discriminate H|]. apply NoDup_cons; [intros []|apply NoDup_nil]. }
+  split; [repeat constructor; vm_compute; lia|]. split; [vm_compute; lia|]. split; [vm_compute; reflexivity|].
+  split.
+  { exists (bs "b1"). split; [vm_compute; reflexivity|vm_compute; discriminate]. }
+  split.
+  { unfold rc_quiet, rx_l2. repeat constructor; cbn [fst snd seeds regen_may_hit]; try tauto.
+    - intros (([R|[R|R]] & _) & _); discriminate R.
+    - intros (([R|[R|R]] & _) & _); discriminate R. }
+  vm_compute. reflexivity.
 Qed.
